@@ -66,3 +66,15 @@ Proof.
     + apply Z.eqb_neq in Hn. rewrite Hn. reflexivity.
     + apply Z.eqb_neq in Hm. rewrite Hm. rewrite orb_true_r. reflexivity.
 Qed.
+
+Lemma run_sarp_ok ch (w : sar0_wiring) (d : adc_detector) (ps : list b64) :
+  sar0_wiring_ok w = true -> run_sarp ch w d ps = sarp_frame ch (d_bits d) (d_hi d) ps (d_signal d).
+Proof.
+  destruct w as [sg rr cc ss nn hi bt g1 g2 st]. unfold sar0_wiring_ok.
+  cbn [nw_signal nw_rows nw_cols nw_strengths nw_noises nw_vmax nw_bits nw_guard_strengths nw_guard_noises nw_store_image].
+  intros H. split_ands H.
+  repeat match goal with K : src_eqb _ _ = true |- _ => apply src_eqb_eq in K; subst end.
+  unfold run_sarp.
+  cbn [nw_signal nw_rows nw_cols nw_strengths nw_noises nw_vmax nw_bits nw_guard_strengths nw_guard_noises nw_store_image pickZ pickF pickL src_eqb].
+  rewrite !Z.eqb_refl. reflexivity.
+Qed.
